@@ -713,7 +713,7 @@ def probe_cell(key):
 
 def probe_freeze_self_move():
     """No IR-level recipe is known for this allocator state; the witness is
-    the first vlib.irgen module (fixed seeds, x86_64, level 1) that trips the
+    the first vlib.irgen module (fixed seeds, 64 indices, x86_64, level 1) that trips the
     assertion -- searched afresh so that it survives changes of irgen."""
     setup()
     from ppci import api
@@ -723,7 +723,7 @@ def probe_freeze_self_move():
     types = cm.target_types(arch)
     deny = deny_for("x86_64", [k for k in FINDINGS if k != "ra-freeze-self-move-assertion"])
     install_allocator_switches("x86_64", [k for k in FINDINGS if k not in ("ra-freeze-self-move-assertion",)])
-    for idx in range(0, 160):
+    for idx in range(0, 64):
         r = rng(0, PROPERTY, "x86_64/%d" % idx)
         cfg = random_cfg(r, "x86_64", types, 8, deny)
         try:
